@@ -502,3 +502,142 @@ Qed.
 (* the initial heap satisfies the invariant *)
 Lemma fresh_inv_init fail : fresh_inv (mst0 fail).
 Proof. intros id _. unfold find, mst0. cbn [mlive]. apply PM.gempty. Qed.
+
+(* ---- the primitives once more, as equations on `find` (convenient for straight-line code) ---- *)
+Lemma alloc_eq n s : fresh_inv s ->
+  (exists s', alloc n s = Val None s' /\ (forall id, find id s' = find id s) /\ fresh_inv s' /\ mnext s' = mnext s) \/
+  (exists s', alloc n s = Val (Some (mnext s)) s' /\ (forall id, find id s' = if Pos.eqb id (mnext s) then Some n else find id s) /\
+              fresh_inv s' /\ mnext s' = Pos.succ (mnext s)).
+Proof.
+  intros F. destruct (alloc_spec n s F) as [(s' & E & S & F' & N & _)|(s' & E & G & O & F' & N & _)].
+  - left. exists s'. auto.
+  - right. exists s'. split; [exact E|]. split; [|auto]. intros id. destruct (Pos.eqb_spec id (mnext s)) as [->|Ne]; [exact G|now apply O].
+Qed.
+
+Lemma mfree_eq x s n : find x s = Some n -> fresh_inv s ->
+  exists s', mfree (Some x) s = Val tt s' /\ (forall id, find id s' = if Pos.eqb id x then None else find id s) /\ fresh_inv s' /\ mnext s' = mnext s.
+Proof.
+  intros H F. destruct (mfree_spec x s n H F) as (s' & E & R & F' & N & _). exists s'. split; [exact E|]. split; [|auto].
+  intros id. rewrite R. cbn [mem existsb]. now rewrite orb_false_r.
+Qed.
+
+Lemma store_eq x s n n' : find x s = Some n -> fresh_inv s ->
+  exists s', store (Some x) n' s = Val tt s' /\ (forall id, find id s' = if Pos.eqb id x then Some n' else find id s) /\ fresh_inv s' /\ mnext s' = mnext s.
+Proof.
+  intros H F. destruct (store_spec x s n n' H F) as (s' & E & G & O & F' & N & _). exists s'. split; [exact E|]. split; [|auto].
+  intros id. destruct (Pos.eqb_spec id x) as [->|Ne]; [exact G|now apply O].
+Qed.
+
+Ltac peq := rewrite ?Pos.eqb_refl;
+  repeat match goal with |- context [Pos.eqb ?a ?b] => destruct (Pos.eqb_spec a b); [try (exfalso; lia)|] end.
+
+(* sbdf_va_create_bit: for every oracle, either a bit array made of fresh blocks only (handle, byte-array
+   object, its data block, the bytes), the scratch buffer gone, the source untouched - or an error, a
+   null handle and the heap as before *)
+Theorem va_create_bit_spec s src ty count blocks : fresh_inv s -> obj_at s src ty count blocks ->
+  match va_create_bit_m (Some src) s with
+  | Flt _ => False
+  | Val (st, p) s' =>
+    fresh_inv s' /\
+    ((st = SBDF_OK /\ exists h vblocks, p = Some h /\ va_at s' h SBDF_BINARYTYPEID 1 vblocks /\ all_fresh s vblocks /\
+        (forall x, ~ In x vblocks -> find x s' = find x s)) \/
+     (st <> SBDF_OK /\ p = None /\ same_heap s s'))
+  end.
+Proof.
+  intros F H. unfold va_create_bit_m, mbind.
+  assert (Hsrc : exists dd, find src s = Some (NObj ty count dd)).
+  { unfold obj_at in H. destruct (is_arr ty); [destruct H as (d & el & _ & _ & _ & Ht & _)|destruct H as (d & _ & _ & Ht & _)]; eauto. }
+  destruct Hsrc as (dd & Hsrc). rewrite (load_spec src s _ Hsrc).
+  set (h := mnext s).
+  assert (Fh : forall id, (h <= id)%positive -> find id s = None) by exact F.
+  destruct (alloc_eq (NVa None None) s F) as [(s1 & E1 & Q1 & F1 & N1)|(s1 & E1 & Q1 & F1 & N1)]; rewrite E1.
+  { unfold mret. split; [exact F1|]. right. split; [discriminate|]. split; [reflexivity|exact Q1]. }
+  fold h in Q1, N1. fold h.
+  assert (Hh1 : find h s1 = Some (NVa None None)) by (rewrite Q1, Pos.eqb_refl; reflexivity).
+  (* the two early refusals *)
+  assert (Early : forall st0, st0 <> SBDF_OK ->
+    match (mfree (Some h) ;;m mret (st0, @None positive)) s1 with
+    | Flt _ => False
+    | Val (st, p) s' => fresh_inv s' /\ ((st = SBDF_OK /\ exists h0 vblocks, p = Some h0 /\ va_at s' h0 SBDF_BINARYTYPEID 1 vblocks /\ all_fresh s vblocks /\
+        (forall x, ~ In x vblocks -> find x s' = find x s)) \/ (st <> SBDF_OK /\ p = None /\ same_heap s s'))
+    end).
+  { intros st0 Hst0. unfold mbind. destruct (mfree_eq h s1 _ Hh1 F1) as (s2 & E2 & Q2 & F2 & N2). rewrite E2. unfold mret.
+    split; [exact F2|]. right. split; [exact Hst0|]. split; [reflexivity|]. intros id. rewrite Q2, Q1.
+    destruct (Pos.eqb_spec id h) as [->|Ne]; [symmetry; apply Fh; lia|reflexivity]. }
+  set (sz := if is_arr ty then 8 else usize ty).
+  destruct (sz <? 0) eqn:Esz; [apply Early; unfold SBDF_OK; lia|].
+  destruct (sz =? 0) eqn:Esz0; [apply Early; discriminate|].
+  clear Early.
+  (* the scratch buffer *)
+  set (o := Pos.succ h) in *.
+  destruct (alloc_eq NBytes s1 F1) as [(s2 & E2 & Q2 & F2 & N2)|(s2 & E2 & Q2 & F2 & N2)]; rewrite E2; cbv beta iota; rewrite N1 in *.
+  { assert (Hh2 : find h s2 = Some (NVa None None)) by (rewrite Q2; exact Hh1).
+    destruct (mfree_eq h s2 _ Hh2 F2) as (s3 & E3 & Q3 & F3 & N3). rewrite E3. unfold mret.
+    split; [exact F3|]. right. split; [discriminate|]. split; [reflexivity|]. intros id. rewrite Q3, Q2, Q1.
+    destruct (Pos.eqb_spec id h) as [->|Ne]; [symmetry; apply Fh; lia|reflexivity]. }
+  fold o in Q2. fold o.
+  (* the object struct *)
+  set (t := Pos.succ o) in *.
+  destruct (alloc_eq (NObj SBDF_BINARYTYPEID 0 None) s2 F2) as [(s3 & E3 & Q3 & F3 & N3)|(s3 & E3 & Q3 & F3 & N3)]; rewrite E3; cbv beta iota; rewrite N2 in *.
+  { assert (Ho3 : find o s3 = Some NBytes) by (rewrite Q3, Q2, Pos.eqb_refl; reflexivity).
+    destruct (mfree_eq o s3 _ Ho3 F3) as (s4 & E4 & Q4 & F4 & N4). rewrite E4.
+    assert (Hh4 : find h s4 = Some (NVa None None)).
+    { rewrite Q4, Q3, Q2, Q1. destruct (Pos.eqb_spec h o) as [Eq|_]; [unfold o in Eq; lia|]. now rewrite Pos.eqb_refl. }
+    destruct (mfree_eq h s4 _ Hh4 F4) as (s5 & E5 & Q5 & F5 & N5). rewrite E5. unfold mret.
+    split; [exact F5|]. right. split; [discriminate|]. split; [reflexivity|]. intros id. rewrite Q5, Q4, Q3, Q2, Q1.
+    destruct (Pos.eqb_spec id h) as [->|Ne]; [symmetry; apply Fh; lia|]. destruct (Pos.eqb_spec id o) as [->|Ne2]; [symmetry; apply Fh; unfold o; lia|reflexivity]. }
+  fold t in Q3. fold t.
+  (* its data block *)
+  set (d := Pos.succ t) in *.
+  destruct (alloc_eq (NPtrs [None]) s3 F3) as [(s4 & E4 & Q4 & F4 & N4)|(s4 & E4 & Q4 & F4 & N4)]; rewrite E4; cbv beta iota; rewrite N3 in *.
+  { assert (Ho : find o s4 = Some NBytes) by (rewrite Q4, Q3, Q2; unfold t, o; peq; reflexivity).
+    destruct (mfree_eq o s4 _ Ho F4) as (s5 & E5 & Q5 & F5 & N5). rewrite E5.
+    assert (Hh : find h s5 = Some (NVa None None)) by (rewrite Q5, Q4, Q3, Q2, Q1; unfold t, o; peq; reflexivity).
+    destruct (mfree_eq h s5 _ Hh F5) as (s6 & E6 & Q6 & F6 & N6). rewrite E6.
+    assert (Ht : find t s6 = Some (NObj SBDF_BINARYTYPEID 0 None)) by (rewrite Q6, Q5, Q4, Q3; unfold t, o; peq; reflexivity).
+    destruct (mfree_eq t s6 _ Ht F6) as (s7 & E7 & Q7 & F7 & N7). rewrite E7. unfold mret.
+    split; [exact F7|]. right. split; [discriminate|]. split; [reflexivity|]. intros id. rewrite Q7, Q6, Q5, Q4, Q3, Q2, Q1.
+    destruct (Pos.eqb_spec id t) as [->|N1']; [symmetry; apply Fh; unfold t, o; lia|].
+    destruct (Pos.eqb_spec id h) as [->|N2']; [symmetry; apply Fh; lia|].
+    destruct (Pos.eqb_spec id o) as [->|N3']; [symmetry; apply Fh; unfold o; lia|reflexivity]. }
+  fold d in Q4. fold d.
+  assert (Ht4 : find t s4 = Some (NObj SBDF_BINARYTYPEID 0 None)) by (rewrite Q4, Q3; unfold d; peq; reflexivity).
+  destruct (store_eq t s4 _ (NObj SBDF_BINARYTYPEID 0 (Some d)) Ht4 F4) as (s5 & E5 & Q5 & F5 & N5). rewrite E5; cbv beta iota. rewrite N4 in *.
+  (* the byte array *)
+  set (ba := Pos.succ d) in *.
+  destruct (alloc_eq NBytes s5 F5) as [(s6 & E6 & Q6 & F6 & N6)|(s6 & E6 & Q6 & F6 & N6)]; rewrite E6; cbv beta iota; rewrite N5 in *.
+  { assert (Ho : find o s6 = Some NBytes) by (rewrite Q6, Q5, Q4, Q3, Q2; unfold d, t, o; peq; reflexivity).
+    destruct (mfree_eq o s6 _ Ho F6) as (s7 & E7 & Q7 & F7 & N7). rewrite E7.
+    assert (Hh : find h s7 = Some (NVa None None)) by (rewrite Q7, Q6, Q5, Q4, Q3, Q2, Q1; unfold d, t, o; peq; reflexivity).
+    destruct (mfree_eq h s7 _ Hh F7) as (s8 & E8 & Q8 & F8 & N8). rewrite E8.
+    assert (Hd : find d s8 = Some (NPtrs [None])) by (rewrite Q8, Q7, Q6, Q5, Q4; unfold d, t, o; peq; reflexivity).
+    destruct (mfree_eq d s8 _ Hd F8) as (s9 & E9 & Q9 & F9 & N9). rewrite E9.
+    assert (Ht : find t s9 = Some (NObj SBDF_BINARYTYPEID 0 (Some d))) by (rewrite Q9, Q8, Q7, Q6, Q5; unfold d, t, o; peq; reflexivity).
+    destruct (mfree_eq t s9 _ Ht F9) as (s10 & E10 & Q10 & F10 & N10). rewrite E10. unfold mret.
+    split; [exact F10|]. right. split; [discriminate|]. split; [reflexivity|]. intros id. rewrite Q10, Q9, Q8, Q7, Q6, Q5, Q4, Q3, Q2, Q1.
+    destruct (Pos.eqb_spec id t) as [->|N1']; [symmetry; apply Fh; unfold t, o; lia|].
+    destruct (Pos.eqb_spec id d) as [->|N2']; [symmetry; apply Fh; unfold d, t, o; lia|].
+    destruct (Pos.eqb_spec id h) as [->|N3']; [symmetry; apply Fh; lia|].
+    destruct (Pos.eqb_spec id o) as [->|N4']; [symmetry; apply Fh; unfold o; lia|reflexivity]. }
+  fold ba in Q6. fold ba.
+  assert (Hd6 : find d s6 = Some (NPtrs [None])) by (rewrite Q6, Q5, Q4; unfold ba, d, t; peq; reflexivity).
+  destruct (store_eq d s6 _ (NPtrs (@cons ptr (Some ba) (@nil ptr))) Hd6 F6) as (s7 & E7 & Q7 & F7 & N7). rewrite E7; cbv beta iota.
+  assert (Ho7 : find o s7 = Some NBytes) by (rewrite Q7, Q6, Q5, Q4, Q3, Q2; unfold ba, d, t, o; peq; reflexivity).
+  destruct (mfree_eq o s7 _ Ho7 F7) as (s8 & E8 & Q8 & F8 & N8). rewrite E8; cbv beta iota.
+  assert (Ht8 : find t s8 = Some (NObj SBDF_BINARYTYPEID 0 (Some d))) by (rewrite Q8, Q7, Q6, Q5; unfold ba, d, t, o; peq; reflexivity).
+  destruct (store_eq t s8 _ (NObj SBDF_BINARYTYPEID 1 (Some d)) Ht8 F8) as (s9 & E9 & Q9 & F9 & N9). rewrite E9; cbv beta iota.
+  assert (Hh9 : find h s9 = Some (NVa None None)) by (rewrite Q9, Q8, Q7, Q6, Q5, Q4, Q3, Q2, Q1; unfold ba, d, t, o; peq; reflexivity).
+  destruct (store_eq h s9 _ (NVa (Some t) None) Hh9 F9) as (s10 & E10 & Q10 & F10 & N10). rewrite E10; cbv beta iota. unfold mret.
+  split; [exact F10|]. left. split; [reflexivity|]. exists h, [h; t; d; ba]. split; [reflexivity|]. split; [|split].
+  - exists t, [t; d; ba]. split; [reflexivity|]. split; [intros [Eq|[Eq|[Eq|[]]]]; unfold ba, d, t, o in Eq; lia|].
+    split; [rewrite Q10; peq; reflexivity|].
+    unfold obj_at. change (is_arr SBDF_BINARYTYPEID) with true. cbv iota. exists d, [ba]. split; [reflexivity|]. split; [reflexivity|]. split.
+    + repeat constructor; cbn; intros Hin; repeat destruct Hin as [Hin|Hin]; try contradiction; unfold ba, d, t, o in Hin; lia.
+    + split; [rewrite Q10, Q9; unfold ba, d, t, o; peq; reflexivity|]. split; [rewrite Q10, Q9, Q8, Q7; unfold ba, d, t, o; peq; reflexivity|].
+      intros e [<-|[]]. rewrite Q10, Q9, Q8, Q7, Q6. unfold ba, d, t, o. peq. reflexivity.
+  - intros b [<-|[<-|[<-|[<-|[]]]]]; unfold ba, d, t, o, h; lia.
+  - intros x Hx. rewrite Q10, Q9, Q8, Q7, Q6, Q5, Q4, Q3, Q2, Q1.
+    assert (x <> h /\ x <> t /\ x <> d /\ x <> ba) as (X1 & X2 & X3 & X4) by (repeat split; intros ->; apply Hx; cbn; auto).
+    destruct (Pos.eqb_spec x h); [contradiction|]. destruct (Pos.eqb_spec x t); [contradiction|]. destruct (Pos.eqb_spec x d); [contradiction|].
+    destruct (Pos.eqb_spec x ba); [contradiction|]. destruct (Pos.eqb_spec x o) as [->|]; [symmetry; apply Fh; unfold o; lia|reflexivity].
+Qed.
